@@ -70,6 +70,26 @@ def oracle(cases, impl):
             if out != " ".join(["rejected/1/1 1/1"] * 5):
                 fails.append(dict(name="leak-" + cid, case=dict(keys=c[3], impl=out),
                                   what="a merged command naming a key of a non-hosted partition must be rejected with no effect, and must not leak into the next merged command on the connection (want 5x 'rejected/1/1 1/1'): " + out))
+        elif kind == "T":
+            # direct oracle, independent of the model: an MGET is rejected or answers, for every key, the value SET
+            # before (all keys of a case are private to it), never nil for a key that was set
+            sets = c[2].split(",") if c[2] else []
+            val = {sets[i]: sets[i + 1] for i in range(0, len(sets) - 1, 2)}
+            if out != "rejected":
+                want = ",".join((val[k] + ".") if k in val else "-" for k in c[3].split(","))
+                if out != want:
+                    fails.append(dict(name="mget-" + cid, case=dict(sets=c[2], keys=c[3], impl=out),
+                                      what="MGET answered %s, one store holding all the data answers %s (a key owned by another partition must make the command fail, not read as missing)" % (out, want)))
+        elif kind == "N":
+            want = " ".join((bytes.fromhex(d.split("/")[0]) + b"-" + d.split("/")[1].encode()).hex() for d in c[1].split(","))
+            if out != want:
+                fails.append(dict(name="groupname-" + cid, case=dict(desc=c[1], impl=out),
+                                  what="a key of namespace/partition %s must be held by exactly its own replica group (%s), got %s" % (c[1], want, out)))
+        elif kind == "B":
+            nkeys = len(c[2].split(","))
+            if out not in ("err err", "1 1") or (nkeys <= 5001 and out != "1 1") or (nkeys > 5001 and out != "err err"):
+                fails.append(dict(name="limit-" + cid, case=dict(nkeys=nkeys, impl=out),
+                                  what="merged EXISTS/DEL with one part of %d keys (+1 stored key of another partition): want the complete count below the limit and an error above it, never the other partition's count alone: %s" % (nkeys - 1, out)))
         elif kind == "S":
             if out != "ok":
                 fails.append(dict(name="slowpart-" + cid, case=dict(tag=c[1], impl=out),
@@ -162,7 +182,7 @@ def run(ctx):
             hist_all[k] = hist_all.get(k, 0) + v
         for cid, c in cases.items():
             # non-trivial: non-empty key and pnum > 1 for hashes, key list with >= 2 keys for merges
-            if (c[0] == "H" and c[1] != "-" and c[2] not in ("0", "1")) or (c[0] in ("G", "D", "P") and "," in c[-1]) or c[0] in ("X", "R", "L", "E", "Q", "S"):
+            if (c[0] == "H" and c[1] != "-" and c[2] not in ("0", "1")) or (c[0] in ("G", "D", "P") and "," in c[-1]) or c[0] in ("X", "R", "L", "E", "Q", "S", "T", "B", "N"):
                 distinct.add(vlib.case_hash("\t".join(c)))
         ids = list(cases.keys())
         for cid in ids[:2] + ids[-2:]:
